@@ -181,16 +181,18 @@ func mustStruct(v []byte) []stackitem.Item {
 // ---------------------------------------------------------------- world
 
 type world struct {
-	c     *chainx.Chain
-	nns   util.Uint160
-	probe util.Uint160
-	users map[string]neotest.Signer // hex(script hash) -> signer (users and the committee)
-	uhash []string
-	cmt   string
-	run   *hx.Run
-	wf    bool
-	prev  *snap
-	mon   *monitor
+	c      *chainx.Chain
+	nns    util.Uint160
+	probe  util.Uint160
+	users  map[string]neotest.Signer // hex(script hash) -> signer (users and the committee)
+	uhash  []string
+	cmt    string
+	n      int            // committee size
+	cmtByK map[int]string // k -> hex hash of the k-of-n committee multisignature account
+	run    *hx.Run
+	wf     bool
+	prev   *snap
+	mon    *monitor
 	// monitor evaluations of the current op, run after the op line has been recorded
 	pending []func()
 }
@@ -200,8 +202,20 @@ func thisDir() string {
 	return filepath.Dir(f)
 }
 
-func newWorld(t testing.TB, run *hx.Run) *world {
-	c := chainx.New(t, 1)
+// caseCommittee reads the committee size from the attributes of a case line (`n=4`); default 1.
+func caseCommittee(attrs []string) int {
+	for _, a := range attrs {
+		if strings.HasPrefix(a, "n=") {
+			if n, err := strconv.Atoi(a[2:]); err == nil && n >= 1 && n <= 7 {
+				return n
+			}
+		}
+	}
+	return 1
+}
+
+func newWorld(t testing.TB, run *hx.Run, n int) *world {
+	c := chainx.New(t, n)
 	ct := c.Compile("nns")
 	c.Deploy(ct, nil)
 	pr := c.CompileDir(filepath.Join(thisDir(), "..", "probes", "caller"))
@@ -215,6 +229,16 @@ func newWorld(t testing.TB, run *hx.Run) *world {
 	}
 	w.cmt = hx.Hex(c.Cmt.ScriptHash().BytesBE())
 	w.users[w.cmt] = c.Cmt
+	// the k-of-n multisignature accounts of the committee keys, every k: signer classes of the committee gate
+	w.n, w.cmtByK = n, map[int]string{}
+	for k := 1; k <= n; k++ {
+		sg := c.NNSCommitteeMultisig(k)
+		h := hx.Hex(sg.ScriptHash().BytesBE())
+		w.cmtByK[k] = h
+		if h != w.cmt {
+			w.users[h] = sg
+		}
+	}
 	w.prev = w.scan()
 	w.mon = newMonitor(w)
 	return w
@@ -251,7 +275,8 @@ func strArg(s string) any {
 type opLine struct {
 	now                  uint64
 	sig                  []string
-	cmt                  bool
+	cmtK, cmtN           int // a k-of-n committee multisignature account signs (k = 0: none)
+	ip                   bool
 	caller, method, line string
 	args                 []string
 }
@@ -265,12 +290,22 @@ func parseLine(t testing.TB, line string) opLine {
 	if err != nil {
 		t.Fatalf("bad time in %q", line)
 	}
-	o := opLine{now: now, cmt: ws[3] == "1", caller: ws[4], method: ws[7], args: ws[8:], line: line}
+	o := opLine{now: now, cmtN: 1, ip: ws[5] == "1", caller: ws[4], method: ws[7], args: ws[8:], line: line}
+	if kn := strings.Split(ws[3], "/"); len(kn) == 2 {
+		o.cmtK, _ = strconv.Atoi(kn[0])
+		o.cmtN, _ = strconv.Atoi(kn[1])
+	} else {
+		o.cmtK, _ = strconv.Atoi(ws[3]) // short forms 0 and 1 = 0/1 and 1/1
+	}
 	if ws[2] != "-" {
 		o.sig = strings.Split(ws[2], ",")
 	}
 	return o
 }
+
+// committee: the call carries the witness of the committee, i.e. of a multisignature account of at least the
+// majority n/2+1 of the committee keys.
+func (o opLine) committee() bool { return o.cmtN >= 1 && o.cmtK >= o.cmtN/2+1 }
 
 func (o opLine) witnessed(h []byte) bool {
 	if len(h) != 20 {
@@ -296,6 +331,7 @@ type event struct {
 }
 
 type outcome struct {
+	fault  string // fault text (statistics and the committee-gate clause only; never compared with the model)
 	halt   bool
 	ret    string
 	events []event
@@ -386,7 +422,7 @@ func (w *world) execOp(line string) string {
 	}
 	res := w.c.NNSExecAt(o.now, tx)
 	w.run.Count("op." + o.method)
-	oc := outcome{halt: res.Halt}
+	oc := outcome{halt: res.Halt, fault: res.Fault}
 	var sb strings.Builder
 	if !res.Halt {
 		sb.WriteString("FAULT")
@@ -692,10 +728,22 @@ func tld(n string) bool { return !strings.Contains(n, ".") }
 
 func eqB(a, b []byte) bool { return bytes.Equal(a, b) }
 
+// committeeGated: the methods whose only authority is the committee: registerTLD, setPrice, and renew/updateSOA of a
+// TLD (TLDs are committee-owned and hold no records).
+func committeeGated(o opLine) bool {
+	switch o.method {
+	case "registerTLD", "setPrice":
+		return true
+	case "updateSOA", "renew", "renewDefault":
+		return len(o.args) > 0 && tld(string(hx.UnHex(o.args[0])))
+	}
+	return false
+}
+
 // roleAuth: the owner or the admin witnessed the call (the committee when the name is committee-owned).
 func roleAuth(o opLine, r roleRef) bool {
 	if len(r.owner) == 0 {
-		return o.cmt
+		return o.committee()
 	}
 	return o.witnessed(r.owner) || o.witnessed(r.admin)
 }
@@ -728,7 +776,7 @@ func (m *monitor) authorised(o opLine, get func(string) (roleRef, bool), prev *s
 		}
 		return ok, why
 	case "registerTLD", "setPrice":
-		return o.cmt, "committee"
+		return o.committee(), "committee"
 	}
 	return false, "nobody (no invocation)"
 }
@@ -789,9 +837,36 @@ func (m *monitor) afterOp(o opLine, oc outcome, prev, cur *snap) {
 		}{{"the history of successful calls", hist}, {"storage", stored}} {
 			ok, why := m.authorised(o, view.get, prev, t)
 			if !ok {
-				m.v("C11", o, "unauthorised-"+o.method, "state changed or call succeeded without the witness of "+why+" (roles according to "+view.name+")")
+				what := "unauthorised-" + o.method
+				switch {
+				case o.method == "setAdmin":
+					// "only the owner can … together with the new admin, appoint an admin"
+					if r, known := view.get(string(hx.UnHex(a[0]))); known && !o.witnessed(r.owner) {
+						what = "setadmin-without-owner"
+					}
+				case committeeGated(o) && o.cmtK > 0:
+					// a multisignature account of fewer than n/2+1 committee members opened the committee gate
+					what = "committee-gate-accepts-minority"
+					why = fmt.Sprintf("the committee majority (%d of %d members; the signing account holds %d)", o.cmtN/2+1, o.cmtN, o.cmtK)
+				}
+				m.v("C11", o, what, "state changed or call succeeded without the witness of "+why+" (roles according to "+view.name+")")
 				break
 			}
+		}
+	}
+	// the committee gate must open for the genuine majority account (n/2+1 of n committee keys)
+	if !oc.halt && o.cmtN >= 1 && o.cmtK == o.cmtN/2+1 && committeeGated(o) {
+		legal := false
+		switch o.method {
+		case "setPrice":
+			p := hx.Big(a[0])
+			legal = p.Sign() >= 0 && p.Cmp(big.NewInt(1_0000_0000_0000)) <= 0
+		case "registerTLD":
+			n := string(hx.UnHex(a[0]))
+			legal = tld(n) && validName(n) && !liveAt(prev, n, t)
+		}
+		if legal || strings.Contains(oc.fault, "not witnessed by committee") {
+			m.v("C11", o, "committee-gate-rejects-majority", fmt.Sprintf("a committee-gated call signed by the majority account (%d of %d committee members) FAULTs", o.cmtK, o.cmtN))
 		}
 	}
 	m.updateRoles(o, success)
@@ -1008,8 +1083,63 @@ func soaSerial(s *snap, token string) (string, bool) {
 	return "", false
 }
 
+// authorisedBoth: the call carries the witnesses its method needs according to both role views (history of
+// successful calls, storage before the call).
+func (m *monitor) authorisedBoth(o opLine, prev *snap, t *big.Int) bool {
+	stored := func(n string) (roleRef, bool) {
+		ns, ok := prev.names[n]
+		return roleRef{ns.owner, ns.admin}, ok
+	}
+	hist := func(n string) (roleRef, bool) {
+		r, ok := m.roles[n]
+		if !ok {
+			return roleRef{}, false
+		}
+		return *r, true
+	}
+	ok1, _ := m.authorised(o, hist, prev, t)
+	ok2, _ := m.authorised(o, stored, prev, t)
+	return ok1 && ok2
+}
+
 func (m *monitor) recordsAfterOp(o opLine, oc outcome, prev, cur *snap, t *big.Int, success bool) {
 	a := o.args
+	// "setRecord replaces by index": a replacement the property allows must be carried out. Legal by the monitor's
+	// own reading: well-formed name below a registered unexpired enclosing chain, a record type with data valid for
+	// it, the owner's/admin's witness, an existing index, and a value that no OTHER record of the same name and type
+	// holds (values of other types do not count: the lists are per name and type).
+	if !oc.halt && o.method == "setRecord" && len(a) == 4 {
+		n, v := string(hx.UnHex(a[0])), string(hx.UnHex(a[3]))
+		typ, id := hx.Big(a[1]), hx.Big(a[2])
+		tok, has := enclosing(prev, n, t)
+		dataOK := false
+		if typ.IsInt64() {
+			switch typ.Int64() {
+			case typA, typAAAA:
+				dataOK = o.ip
+			case typTXT:
+				dataOK = len(v) <= 255
+			case typCNAME:
+				dataOK = validName(v)
+			}
+		}
+		if has && dataOK && validName(n) && chainLive(prev, tok, t, true) && m.authorisedBoth(o, prev, t) && id.IsInt64() {
+			vals := m.ref[refKey(tok, n, typ.Int64())]
+			i := id.Int64()
+			legal := i >= 0 && i < int64(len(vals))
+			for j, x := range vals {
+				if int64(j) != i && x == v {
+					legal = false
+				}
+			}
+			if ser, ok := soaSerial(prev, tok); !ok || ser == "" {
+				legal = false // a malformed SOA record (e-mail with spaces) blocks every record mutation
+			}
+			if legal {
+				m.v("C12", o, "legal-replacement-rejected", fmt.Sprintf("setRecord of index %d of %q (type %s, %d values, none of the others equal to the new one) FAULTs", i, n, typ, len(vals)))
+			}
+		}
+	}
 	if success {
 		switch o.method {
 		case "addRecord", "setRecord", "deleteRecords":
@@ -1322,8 +1452,8 @@ func TestRun(t *testing.T) {
 		var first []string
 		for _, l := range run.ReplayLines() {
 			if strings.HasPrefix(l, "case ") {
-				w = newWorld(t, run)
 				f := strings.Fields(l)
+				w = newWorld(t, run, caseCommittee(f[2:]))
 				w.wf = len(f) > 2 && f[2] == "wf"
 				run.Case(f[1], f[2:]...)
 				continue
@@ -1345,13 +1475,24 @@ func TestRun(t *testing.T) {
 		cases, nops = 24, 260
 	}
 	for ci := 0; ci < cases; ci++ {
-		w := newWorld(t, run)
+		// committee sizes: mostly the single-member committee of the repository's tests; even sizes 4 and 6 (where
+		// "half" and "majority" differ by one signature) in every tier, 3 and 5 in the thorough tier
+		n := 1
+		switch {
+		case ci%4 == 1:
+			n = 4
+		case ci%8 == 2:
+			n = 6
+		case ci%8 == 6 && run.Tier == "thorough":
+			n = 3 + 2*(ci/8%2)
+		}
+		w := newWorld(t, run, n)
 		w.wf = ci%4 != 3
 		kind := "wf"
 		if !w.wf {
 			kind = "nonwf"
 		}
-		run.Case(fmt.Sprintf("s%d.%d.%d", run.Seed, run.Shard, ci), kind)
+		run.Case(fmt.Sprintf("s%d.%d.%d", run.Seed, run.Shard, ci), kind, fmt.Sprintf("n=%d", n))
 		g := newGen(w, run.Rand(ci), ci)
 		var first []string
 		for i := 0; i < nops; i++ {
